@@ -5,5 +5,6 @@ CONSTANTS
   StaticLens = {0, 1, 3, 21, 22, 23}
   SkipValidate = {}
   OrdByForm = FALSE
+  HeapLenFirst = FALSE
 INVARIANTS ExistsIffValid CompareByContent Emit
 CHECK_DEADLOCK FALSE
